@@ -142,11 +142,25 @@ def gen_comp_with_merges(rng, name="comp", step=60):
     base = 1_600_000_000
     major, minor = 10, 20
     state = {'cid': 0, 'bn': 0}
+    # builds without tags: the number is kept in VERSION, a commit whose number differs from the numbers of ALL its
+    # parents is a build; a merge carries the higher number of its parents (the version was raised on one side)
+    saved_mode = rng.random() < 0.35
+    number = {}
 
     def add(parents, build_p=0.6):
         state['cid'] += 1
         cid = state['cid']
         msg = "BUG-7 c%d" % cid if rng.random() < 0.5 else "misc"
+        if saved_mode:
+            if not parents or build_p >= 1 or rng.random() < build_p:
+                state['bn'] += 1
+                number[cid] = state['bn']
+                versions.append((cid, (major, minor, state['bn'])))
+            else:
+                number[cid] = max(number[p] for p in parents)
+            commits[cid] = mg.Commit(name, cid, [commits[p] for p in parents], msg, base + cid * step,
+                                     {"VERSION": "%d.%d.%d" % (major, minor, number[cid])})
+            return cid
         commits[cid] = mg.Commit(name, cid, [commits[p] for p in parents], msg, base + cid * step, {})
         if rng.random() < build_p:
             state['bn'] += 1
@@ -164,6 +178,9 @@ def gen_comp_with_merges(rng, name="comp", step=60):
             main.append(add([main[-1], tip] if rng.random() < 0.5 else [tip, main[-1]], build_p=0.8))
         else:
             main.append(add([main[-1]]))
+    if saved_mode and number[main[-1]] in [number[p.intid] for p in commits[main[-1]].parents]:
+        # (the head is a build of its own: what a head that repeats an earlier number means is left open)
+        main.append(add([main[-1]], build_p=1))
     heads = {"origin/release/%d.%d" % (major, minor): main[-1]}
     return mg.Repo(name, commits, heads, tags), versions
 
